@@ -612,7 +612,7 @@ def replay_rows(args) -> Dict[str, Any]:
     """Worker: replay a slice of exported documents on the real code."""
     rows, base, seed, rounds = args
     w = World.get()
-    res = {"n": 0, "digests": [], "trivial": 0, "mismatch": [], "samples": [], "calib": [], "pay_calls": 0}
+    res = {"n": 0, "digests": [], "trivial": 0, "mismatch": [], "samples": [], "calib": [], "pay_calls": 0, "pay_met": set()}
     for k, row in enumerate(rows):
         codes = row["doc"]
         trivial = all(c == "T" for c in codes)
@@ -628,6 +628,7 @@ def replay_rows(args) -> Dict[str, Any]:
             lost = not_carried(w, labels_of(segs), blocks)
             need = inserted_kinds(row["document"]) & lost if lost else set()
             res["pay_calls"] += int(any(l.startswith("P:") for l in labels_of(segs)))
+            res["pay_met"].update(l for l in labels_of(segs) if l.startswith("P:"))
             exp = {"document": {join_tokens(t, segs, blocks) for t in row["document"]},
                    "fragment": {join_tokens(t, segs, blocks) for t in row["fragment"]},
                    "pass": {join_tokens(row["pass"], segs, blocks)}}
@@ -831,6 +832,7 @@ def model_check_and_replay(chk: Check, maxlen: int, rounds: int, procs: int) -> 
     calibration_failed(chk, w, errs)
     chk.add("calls_replayed", sum(x["n"] for x in results))
     chk.add("concretisations_with_payload_classes", sum(x["pay_calls"] for x in results))
+    chk.cov["payload_classes_met_in_replay"] = len(set().union(*[x["pay_met"] for x in results]))
     adjudicate(chk, w, mism, "replay mismatches")
 
 
@@ -1060,7 +1062,13 @@ def selftest(tier: str) -> int:
     # ---- (i) corrupted traces
     rnd = random.Random(808)
     recs, want = [], {}
+    w.install_family(payload_alphabet())
+    w.marker_pool = list(w.family)
+    tries = 0
     while len(recs) < 120:
+        tries += 1
+        if tries > 20000:
+            raise MachineryError("selftest: cannot build the corrupted records")
         rec, case = record_random(w, rnd, len(recs) + 1)
         if rec["res"] != "ok":
             continue
